@@ -279,6 +279,8 @@ macro_rules! gate_ids_inst {
 gate_ids_inst!(gate5_ids_n0, 0);
 gate_ids_inst!(gate5_ids_n1, 1);
 gate_ids_inst!(gate5_ids_n3, 3);
+//@ tier: thorough
+gate_ids_inst!(gate5_ids_n2, 2);
 
 /// topic aliases: `nb` (literal 0/1) alias already bound
 fn gate_alias(nb: usize) {
